@@ -169,6 +169,16 @@ Definition read_class_with (v : vis) (bytes : list N) : out unit := run_M (read_
 (* duke::read_class(&mut Cursor::new(bytes)) *)
 Definition read_class_out (bytes : list N) : out unit := read_class_with tree_vis bytes.
 
+(* the other visitors the harness runs: `()` of visitor/implementations/unit_tuple.rs (all interests, refuses nothing);
+   a SimpleClassVisitor that declines every field and method (no interests but fields / methods); one that visits
+   the methods with interest in Code only and declines the code; a class visitor with interest in Record only that
+   declines the components and has no interest in fields and methods; a visitor that declines the class *)
+Definition unit_vis : vis := mkVis (fun _ _ => true) true true false false false false false false.
+Definition skim_vis : vis := mkVis (fun _ _ => false) true true false true true true false false.
+Definition decline_code_vis : vis := mkVis (fun l n => (l =? 2) && str_eqb n A_CODE) true true false true false true true false.
+Definition no_members_vis : vis := mkVis (fun l n => (l =? 0) && str_eqb n A_RECORD) false false false false false true false false.
+Definition decline_vis : vis := mkVis (fun _ _ => false) true true true true true true false false.
+
 (* the steps, each a prefix of the above (for the per-step theorems) *)
 Definition header_out (bytes : list N) : out unit := run_M read_header bytes.
 Definition members_skipped_out (bytes : list N) : out unit :=
